@@ -126,6 +126,12 @@ func gsxMakeInputNamed(c *linter.Checker, prefix string) *gsxInput {
 
 // gsxApply performs one visit of c's visitor on the input.
 func gsxApply(c *linter.Checker, in *gsxInput) {
+	// the context is shared by all checkers (and, in the CLI, by concurrent
+	// goroutines): read-only while a checker runs
+	if cc, ok := gsxrt.Field(c, "ctx").(linter.CheckerContext); ok && cc.Context != nil {
+		gsxrt.Protect("context", cc.Context)
+		defer gsxrt.Unprotect(cc.Context)
+	}
 	fw := gsxrt.Field(c, "fileWalker")
 	// the walkers' protocol: EnterFile(file) comes first and may veto the file
 	if v := gsxrt.Field(fw, "visitor"); v != nil {
@@ -250,6 +256,8 @@ func gsxWalk(name string) {
 	gsxrt.Lazy("file", gsxrt.Bound("K", 2), &f)
 	ctx.Filename = "cand.go"
 	gsxrt.Reached("visit")
+	gsxrt.Protect("context", ctx)
 	c.Check(f)
+	gsxrt.Unprotect(ctx)
 	gsxCheckWarnings(c)
 }
